@@ -158,13 +158,44 @@ deriving DecidableEq, Repr
 def setType (ty : Node → Option VType) (v : Node) (t : VType) : Node → Option VType :=
   fun w => if w = v then some t else ty w
 
-/-- first loop of `Model.graph`: `Variable.type` is assigned equation by equation, the LAST assignment stays -/
+/-- first type-writing loop of `Model.graph`: the left-hand side of an ordinary equation is PARAMETER (a bare number
+    on the right) or COMPUTED; an ODE writes nothing here -/
+def lhsWrites (cx : Ctx) (e : FlatEq) : List (Node × VType) :=
+  match e.lhs with
+  | .var v => [(cx.num (.var v), match e.rhs with | .num _ _ => .parameter | _ => .computed)]
+  | .diff _ _ => []
+
+/-- second loop: the state variable of every ODE is STATE -/
+def stateWrites (cx : Ctx) (e : FlatEq) : List (Node × VType) :=
+  match e.lhs with
+  | .diff x _ => [(cx.num (.var x), .state)]
+  | .var _ => []
+
+/-- third loop: the free variable of every ODE is FREE -/
+def freeWrites (cx : Ctx) (e : FlatEq) : List (Node × VType) :=
+  match e.lhs with
+  | .diff _ t => [(cx.num (.var t), .free)]
+  | .var _ => []
+
+/-- assignments `v.type = t` carried out one after the other -/
+def applyWrites (ty : Node → Option VType) (ws : List (Node × VType)) : Node → Option VType :=
+  ws.foldl (fun ty p => setType ty p.1 p.2) ty
+
+/-- `Variable.type` after the three type-writing loops of `Model.graph` (since the `fix:` commit "the roles that come
+    from the ODEs win"): all left-hand sides, then all states, then all free variables. The roles are a function of the
+    SET of equations (`types_perm`). -/
+def types (cx : Ctx) (eqs : List FlatEq) : Node → Option VType :=
+  applyWrites (applyWrites (applyWrites (fun _ => none) (eqs.flatMap (lhsWrites cx))) (eqs.flatMap (stateWrites cx)))
+    (eqs.flatMap (freeWrites cx))
+
+/-- BEFORE that fix: ONE loop, `Variable.type` assigned equation by equation, the LAST assignment stays -/
 def typeStep (cx : Ctx) (ty : Node → Option VType) (e : FlatEq) : Node → Option VType :=
   match e.lhs with
   | .diff x t => setType (setType ty (cx.num (.var x)) .state) (cx.num (.var t)) .free
   | .var v => setType ty (cx.num (.var v)) (match e.rhs with | .num _ _ => .parameter | _ => .computed)
 
-def types (cx : Ctx) (eqs : List FlatEq) : Node → Option VType :=
+/-- `Variable.type` before the fix -/
+def typesOld (cx : Ctx) (eqs : List FlatEq) : Node → Option VType :=
   eqs.foldl (typeStep cx) (fun _ => none)
 
 /-- the node is a `Derivative` left-hand side -/
@@ -193,6 +224,14 @@ def getDerivedQuantities (cx : Ctx) (π : Adv) (obs : FlatEq → List (Lhs VRef)
   | .error x => .error x
   | .ok g => .ok (sortBy (orderAdded cx F)
       (g.nodes.filter (fun v => !isDeriv cx F v && types cx F.eqs v == some .computed)))
+
+/-- `Model.get_derived_quantities()` BEFORE the fix of the roles (`typesOld`) -/
+def getDerivedQuantitiesOld (cx : Ctx) (π : Adv) (obs : FlatEq → List (Lhs VRef)) (F : Flat) :
+    Except C09.Err (List Node) :=
+  match graph cx π obs F with
+  | .error x => .error x
+  | .ok g => .ok (sortBy (orderAdded cx F)
+      (g.nodes.filter (fun v => !isDeriv cx F v && typesOld cx F.eqs v == some .computed)))
 
 /-- `list(Model.graph.nodes)` — insertion order of the DiGraph -/
 def graphNodes (cx : Ctx) (π : Adv) (obs : FlatEq → List (Lhs VRef)) (F : Flat) : Except C09.Err (List Node) :=
